@@ -20,6 +20,7 @@ pub static PROP: Prop = Prop {
     rule: "pairs (f,g) of generated lax diagrams with label-consistent pending pairs, g's source interface re-attached to f's target type (75%) or left arbitrary (25%: mismatching types / arities); round trips, lax vs strict composition / tensor / identity / symmetry / spider / dagger / singleton, in-place variants; non-trivial = at least one hyperedge and (a non-empty shared boundary or a pending pair); distinct = hash of (f,g)",
     assumptions: &["strictification of a label-inconsistent lax diagram is a caller error (to_strict panics by contract) and is not generated here; C09 covers failing quotients"],
     fixed: None,
+    scale: None,
 };
 
 fn strictify(ctx: &Ctx, f: &LOH, what: &str) -> Result<Diagram, Violation> {
